@@ -29,10 +29,10 @@ type dEvent struct {
 	B     bool                `json:"b"`
 	Code  int                 `json:"code"`
 	Found map[string][]dEntry `json:"found,omitempty"`
-	Codes map[string]int      `json:"codes,omitempty"`    // result code of each of those searches
-	Gen   map[string][]dEntry `json:"gen,omitempty"`      // the same DNs through the route without base DN (base = entry DN)
+	Codes map[string]int      `json:"codes,omitempty"` // result code of each of those searches
+	Gen   map[string][]dEntry `json:"gen,omitempty"`   // the same DNs through the route without base DN (base = entry DN)
 	GCode map[string]int      `json:"gcodes,omitempty"`
-	SID   map[string][]dEntry `json:"sid,omitempty"`      // base <SID=...>: token groups
+	SID   map[string][]dEntry `json:"sid,omitempty"` // base <SID=...>: token groups
 	SCode map[string]int      `json:"sidcodes,omitempty"`
 	Trace int                 `json:"trace,omitempty"`
 	Err   string              `json:"err,omitempty"`
